@@ -239,3 +239,52 @@ Proof.
   intros H. apply clos_trans_t1n in H. inversion H as [y Hs|y z Hs Hr]; subst; [exact Hs|].
   apply hb1_lt in Hs. apply clos_t1n_trans in Hr. apply hb_lt in Hr. lia.
 Qed.
+
+(* ---------- the check, spelled out ---------- *)
+
+(* a location passes iff it is confined, or every conflicting pair of run-phase sites shares a lock that at
+   least one of the two holds exclusively *)
+Lemma check_location_spec l :
+  check_location l = true <->
+  (l_class l = CConfined \/
+   forall s1 s2, In s1 (l_sites l) -> In s2 (l_sites l) ->
+     s_phase s1 = PRun -> s_phase s2 = PRun -> kinds_conflict (s_kind s1) (s_kind s2) = true ->
+     exists lk m1 m2, In (lk, m1) (s_locks s1) /\ In (lk, m2) (s_locks s2) /\ excl m1 m2 = true).
+Proof.
+  unfold check_location. destruct (l_class l) eqn:Hc.
+  - split.
+    + intros H. right. intros s1 s2 H1 H2 P1 P2 K.
+      rewrite forallb_forall in H. specialize (H s1 H1). rewrite forallb_forall in H. specialize (H s2 H2).
+      unfold pair_ok, is_run in H. rewrite P1, P2, K in H. simpl in H. apply common_lock_spec; exact H.
+    + intros [H|H]; [discriminate|].
+      apply forallb_forall. intros s1 H1. apply forallb_forall. intros s2 H2.
+      unfold pair_ok, is_run.
+      destruct (s_phase s1) eqn:P1; [reflexivity|]. destruct (s_phase s2) eqn:P2; [reflexivity|].
+      destruct (kinds_conflict (s_kind s1) (s_kind s2)) eqn:K; [|reflexivity]. simpl.
+      destruct (H s1 s2 H1 H2 P1 P2 K) as (lk & m1 & m2 & I1 & I2 & E).
+      unfold common_lock. apply existsb_exists. exists (lk, m1). split; [exact I1|].
+      apply existsb_exists. exists (lk, m2). split; [exact I2|]. simpl.
+      unfold seqb, beqb. rewrite bcmp_refl. exact E.
+  - split; [intros _; left; reflexivity|reflexivity].
+Qed.
+
+(* a table with no flagged location has no unprotected conflicting pair, and conversely *)
+Theorem no_flagged_iff_no_unprotected_pair t :
+  flagged t = [] <->
+  forall l, In l t -> l_class l = CShared ->
+    forall s1 s2, In s1 (l_sites l) -> In s2 (l_sites l) ->
+      s_phase s1 = PRun -> s_phase s2 = PRun -> kinds_conflict (s_kind s1) (s_kind s2) = true ->
+      exists lk m1 m2, In (lk, m1) (s_locks s1) /\ In (lk, m2) (s_locks s2) /\ excl m1 m2 = true.
+Proof.
+  split.
+  - intros Hf l Hin Hsh. assert (Hc : check_location l = true).
+    { destruct (check_location l) eqn:E; [reflexivity|]. exfalso.
+      unfold flagged in Hf. assert (In (l_name l) (map l_name (filter (fun l => negb (check_location l)) t))).
+      { apply in_map. apply filter_In. split; [exact Hin|]. rewrite E. reflexivity. }
+      rewrite Hf in H. exact H. }
+    apply check_location_spec in Hc. destruct Hc as [Hc|Hc]; [congruence|exact Hc].
+  - intros H. unfold flagged. induction t as [|x t IH]; [reflexivity|]. simpl.
+    assert (Hx : check_location x = true).
+    { apply check_location_spec. destruct (l_class x) eqn:Hc; [right; apply (H x (or_introl eq_refl) Hc)|left; reflexivity]. }
+    rewrite Hx. simpl. apply IH. intros l Hin. apply H. right; exact Hin.
+Qed.
